@@ -43,6 +43,10 @@ structure ArmSt (α : Type) where
   Ainv : Mat := []
   beta : Vec := []
   rngPriv : Bool := false      -- the model's generator is a private deep copy
+  -- `scale=True`: the arm's fitted `StandardScaler` (`mean_`, `scale_` after `fix_small_variance`); empty = not fitted.
+  -- The statistics themselves are an oracle (scikit-learn); the model applies them.
+  mu : Vec := []
+  sc : Vec := []
 deriving Repr, Inhabited
 
 structure LP (α : Type) where
@@ -57,6 +61,10 @@ structure LP (α : Type) where
 deriving Inhabited
 
 variable {α : Type} [DecidableEq α]
+
+/-- `_scale_predict_context`: standardise a query row with the arm's scaler (identity when not fitted) -/
+def scaleRow (mu sc x : Vec) : Vec :=
+  if mu.isEmpty then x else List.zipWith (fun (p : Rat × Rat) s => (p.1 - p.2) / s) (List.zip x mu) sc
 
 /-- `_RidgeRegression.init` -/
 def linInitRec (lam : Rat) (d : Nat) (k1fixed : Bool) (r : ArmSt α) : ArmSt α :=
@@ -286,7 +294,7 @@ def copyRec (kind : Kind) (src dst : ArmSt α) : ArmSt α :=
   | .random => dst
   | .linGreedy .. | .linUCB .. | .linTS .. =>
     { dst with inited := src.inited, A := src.A, Xty := src.Xty, Ainv := src.Ainv, beta := src.beta,
-               rngPriv := true }
+               rngPriv := true, mu := src.mu, sc := src.sc }
 
 /-- one `for cold_arm, warm_arm in cold_arm_to_warm_arm.items()` iteration of `_copy_arms` -/
 def LP.copyOne (s : LP α) (p : α × α) : LP α :=
@@ -407,7 +415,8 @@ def LP.predictExp (s : LP α) (m : Option Nat) (ctxs : List Vec) (own : Stream) 
       let r : ArmSt α := (s.st.get? a).getD {}
       match s.kind with
       | .linUCB alpha _ =>
-        (acc.1 ++ [nonRandom.map fun x => Expect.lin (dot x r.beta) alpha (dot (vecMul x r.Ainv) x)], acc.2)
+        (acc.1 ++ [nonRandom.map fun x0 => Expect.lin (dot (scaleRow r.mu r.sc x0) r.beta) alpha
+                      (dot (vecMul (scaleRow r.mu r.sc x0) r.Ainv) (scaleRow r.mu r.sc x0))], acc.2)
       | .linTS alpha _ =>
         let d := r.beta.length
         let strm := if r.rngPriv then Stream.copyOf own else own
@@ -415,8 +424,8 @@ def LP.predictExp (s : LP α) (m : Option Nat) (ctxs : List Vec) (own : Stream) 
                                     params := r.beta.map Expect.val ++ (msmul (alpha * alpha) r.Ainv).flatten.map Expect.val,
                                     size := nonRandom.length * d }
         let B := chunk d nonRandom.length bv
-        (acc.1 ++ [(List.zip nonRandom B).map fun p => Expect.val (dot p.1 p.2)], g)
-      | _ => (acc.1 ++ [nonRandom.map fun x => Expect.val (dot x r.beta)], acc.2)) ([], g)
+        (acc.1 ++ [(List.zip nonRandom B).map fun p => Expect.val (dot (scaleRow r.mu r.sc p.1) p.2)], g)
+      | _ => (acc.1 ++ [nonRandom.map fun x0 => Expect.val (dot (scaleRow r.mu r.sc x0) r.beta)], acc.2)) ([], g)
     (s, Out.unwrap (assembleRows s.arms randRows cols mask 0 0), g)
 
 /-- Comparison of symbolic expectations: exact on `val`, otherwise delegated to `le` (the harness
